@@ -198,8 +198,10 @@ def job_strategy(draw, spec: dict, fixed_universe: typing.Optional[dict] = None)
                 continue
             mx = max_ser_bytes(ct)
             for k in range(spec.get("n_values", 0)):
-                dom = draw(st.sampled_from(spec.get("domains", ["range", "range", "storage", "storage", "invalid"])))
-                v = draw(valuegen.value_strategy(ct, storage=dom != "range", invalid=dom == "invalid"))
+                dom = draw(st.sampled_from(spec.get("domains", ["range", "range", "storage", "storage", "invalid", "pyarr"])))
+                # "pyarr": everything in range except unsigned array elements, which range over their storage type -- the one
+                # class of out-of-range objects that can also be built in Python (array setters check lengths only)
+                v = draw(valuegen.value_strategy(ct, storage=dom not in ("range", "pyarr"), invalid=dom == "invalid", elem_storage=dom == "pyarr"))
                 if dom == "invalid" and not valuegen.is_invalid(ct, v):
                     dom = "storage"
                 buf = mx + draw(st.sampled_from(spec.get("buf_extra", [0, 0, 1, 64])))
@@ -309,7 +311,7 @@ def command_for(case: dict, key: str, reduced: bool = False) -> typing.Optional[
     if case["op"] == "M":
         return f"M {case['ti']}"
     if case["op"] == "S":
-        if lang == "py" and case["dom"] != "range":
+        if lang == "py" and case["dom"] not in ("range", "pyarr"):
             return None
         if lang == "cpp" and case["dom"] == "invalid" and case.get("bad_tag"):
             return None
